@@ -44,14 +44,16 @@ VERIF_DIR = os.path.dirname(os.path.dirname(os.path.abspath(__file__)))
 REPO_DIR = os.environ.get("TZSIM_REPO", "/repo")
 
 
-def env():
+def env(shim=False):
     e = dict(os.environ)
+    e.pop("LD_PRELOAD", None)
     e["CARGO_NET_OFFLINE"] = "true"
     e["TZSIM_CORPUS"] = os.path.join(VERIF_DIR, "corpus")
     # the system-call seam (counts requests for the real clock / environment / file system / cwd / pid)
-    shim = os.path.join(VERIF_DIR, "target", "libtzseam.so")
-    if os.path.exists(shim):
-        e["LD_PRELOAD"] = shim
+    lib = os.path.join(VERIF_DIR, "target", "libtzseam.so")
+    if shim and os.path.exists(lib):
+        # only the simulator's own worker processes run under the shim (never cargo, rustc or Miri)
+        e["LD_PRELOAD"] = lib
     e.pop("RUSTFLAGS", None)  # .cargo/config.toml carries --cfg tz_rs_verif
     return e
 
@@ -167,7 +169,7 @@ def run_workers(ctx, jobs, hang_cpu_s=75):
     while pending or running:
         while pending and len(running) < NPROC:
             j = pending.pop(0)
-            p = subprocess.Popen(j["argv"], env=env(), stdout=subprocess.PIPE, stderr=subprocess.STDOUT, text=True)
+            p = subprocess.Popen(j["argv"], env=env(shim=True), stdout=subprocess.PIPE, stderr=subprocess.STDOUT, text=True)
             running.append({"job": j, "p": p, "last_idx": None, "cpu_at_idx": 0.0})
         time.sleep(0.05)
         for r in list(running):
@@ -254,6 +256,8 @@ def collect(ctx):
         for k in ("switches", "yields", "reads", "ops", "clock_advance_ns", "foreign", "rechecks", "recheck_mismatch"):
             agg[k] += d.get(k, 0)
         agg["worker_wall_s"] = max(agg["worker_wall_s"], d.get("wall_s", 0.0))
+        if "syscall_seam" in d:
+            agg["global_state_observation"] = {"syscall_seam_loaded": d["syscall_seam"], "static_data_bytes_compared_per_call": d.get("static_bytes_compared"), "tls_bytes_compared_per_call": d.get("tls_bytes_compared")}
         for k, v in d.get("faults", {}).items():
             agg["faults"][k] = agg["faults"].get(k, 0) + v
         for k, v in d.get("probes", {}).items():
@@ -311,7 +315,7 @@ def confirm_replay(ctx, f):
             return False
         return p.returncode == 1
     try:
-        p = subprocess.run([ctx.tzsim, "replay", path, "--quiet"], env=env(), stdout=subprocess.PIPE, stderr=subprocess.STDOUT, text=True, timeout=45 if f.get("crash") else 300)
+        p = subprocess.run([ctx.tzsim, "replay", path, "--quiet"], env=env(shim=True), stdout=subprocess.PIPE, stderr=subprocess.STDOUT, text=True, timeout=45 if f.get("crash") else 300)
     except subprocess.TimeoutExpired:
         return bool(f.get("crash"))
     if f.get("crash"):
@@ -387,6 +391,7 @@ def write_evidence(ctx, agg, rule, violations, extra_cov=None, assumptions=None)
         "components": COMPONENTS,
         "determinism_recheck": {"scenarios_executed_twice": agg["rechecks"], "mismatches": agg["recheck_mismatch"]},
         "findings_of_other_properties_oracles_seen": agg["foreign"],
+        "global_state_observation": agg.get("global_state_observation", {}),
         "harness_errors": ctx.harness_errors[:10],
         "notes": ctx.notes,
     }
@@ -519,7 +524,7 @@ def main(verif, argv):
             return 2 if r is None else r
         if not ensure_built(verif):
             return 2
-        p = subprocess.run([os.path.join(verif, "target", "release", "tzsim"), "replay"] + argv[1:], env=env())
+        p = subprocess.run([os.path.join(verif, "target", "release", "tzsim"), "replay"] + argv[1:], env=env(shim=True))
         return p.returncode if p.returncode >= 0 else 1
     if argv[0] == "selftest":
         if not ensure_built(verif):
